@@ -849,6 +849,10 @@ func ruleOU7(c *Ctx) {
 			if _, isTaskSlice := x.Type().Underlying().(*types.Slice); !isTaskSlice {
 				return
 			}
+			// an index kept beside the queue (dependents[dep] = append(dependents[dep], t)) is not the queue
+			if _, fromMap := strip(x.Call.Args[0]).(*ssa.Lookup); fromMap {
+				return
+			}
 			nSeed++
 			facts := c.inLoopFacts(ts, r.Blk)
 			extra := onlyFacts(facts, "lookup[int]==0:T")
